@@ -233,12 +233,70 @@ def _hoist(stmt: ast.stmt, helpers, stack) -> List[ast.stmt]:
     return []
 
 
+def _eager_generator(func: ast.FunctionDef) -> Optional[ast.FunctionDef]:
+    """A private generator whose yields are plain statements is, for every static fact the rules look at, the function
+    that collects what it yields in a list and returns the list (``yield e`` -> ``ACC.append(e)``, ``yield from e`` ->
+    ``ACC.extend(e)``, bare ``return`` -> ``return ACC``).  Consumers (``list(g())``, ``tuple(g())``, ``for x in g()``,
+    comprehensions) iterate that list.  Returns the rewritten copy, or None when the function is not of that shape."""
+    yields = [n for n in ast.walk(func) if isinstance(n, (ast.Yield, ast.YieldFrom))]
+    if not yields:
+        return None
+    clone = copy.deepcopy(func)
+    acc = f"ACC__{func.name.strip('_')}"
+    ok = [True]
+
+    class T(ast.NodeTransformer):
+        def visit_FunctionDef(self, node):
+            if node is clone:
+                return self.generic_visit(node)
+            ok[0] = False  # nested function: leave alone
+            return node
+
+        visit_Lambda = lambda self, node: node  # noqa: E731
+
+        def visit_Expr(self, node):
+            value = node.value
+            if isinstance(value, ast.Yield):
+                call = ast.Call(func=ast.Attribute(value=ast.Name(id=acc, ctx=ast.Load()), attr="append", ctx=ast.Load()),
+                                args=[value.value if value.value is not None else ast.Constant(value=None)], keywords=[])
+                return ast.copy_location(ast.Expr(value=call), node)
+            if isinstance(value, ast.YieldFrom):
+                call = ast.Call(func=ast.Attribute(value=ast.Name(id=acc, ctx=ast.Load()), attr="extend", ctx=ast.Load()),
+                                args=[value.value], keywords=[])
+                return ast.copy_location(ast.Expr(value=call), node)
+            return node
+
+        def visit_Return(self, node):
+            if node.value is not None:
+                ok[0] = False
+                return node
+            return ast.copy_location(ast.Return(value=ast.Name(id=acc, ctx=ast.Load())), node)
+
+    clone = T().visit(clone)
+    if not ok[0] or any(isinstance(n, (ast.Yield, ast.YieldFrom)) for n in ast.walk(clone)):
+        return None  # a yield used as an expression (x = yield ...) or something else outside the shape
+    body = clone.body
+    start = 1 if body and isinstance(body[0], ast.Expr) and isinstance(getattr(body[0], "value", None), ast.Constant) \
+        and isinstance(body[0].value.value, str) else 0
+    init = ast.Assign(targets=[ast.Name(id=acc, ctx=ast.Store())], value=ast.List(elts=[], ctx=ast.Load()))
+    final = ast.Return(value=ast.Name(id=acc, ctx=ast.Load()))
+    ast.copy_location(init, clone)
+    ast.copy_location(final, body[-1] if body else clone)
+    clone.body = body[:start] + [init] + body[start:] + [final]
+    clone.returns = None
+    ast.fix_missing_locations(clone)
+    return clone
+
+
 def inlinable_helpers(tree: ast.Module) -> Dict[str, ast.FunctionDef]:
     out = {}
     for node in tree.body:
-        if isinstance(node, ast.FunctionDef) and node.name.startswith("_") and not node.name.startswith("__") \
-                and not _has_bad_constructs(node) and _returns_in_tail_position(node.body):
-            out[node.name] = node
+        if isinstance(node, ast.FunctionDef) and node.name.startswith("_") and not node.name.startswith("__"):
+            eager = _eager_generator(node)
+            if eager is not None:
+                node = eager
+            if not _has_bad_constructs(node) and _returns_in_tail_position(node.body):
+                out[node.name] = node
     return out
 
 
